@@ -24,7 +24,7 @@ def entry(name):
 class Inp:
     """An independent input with an admissible range (chosen on inputs, never by looking at outcomes)."""
 
-    def __init__(self, name, nom, kind="rel", lo=-0.1, hi=0.1, special=(), units=None, elementwise=True):
+    def __init__(self, name, nom, kind="rel", lo=-0.1, hi=0.1, special=(), units=None, elementwise=True, c20_special_p=None):
         self.name = name
         self.nom = np.atleast_1d(np.array(nom, dtype=float))
         self.kind = kind  # "rel": nom*(1+u), u in [lo,hi];  "abs": nom+u ; "uni": uniform [lo,hi]
@@ -32,13 +32,17 @@ class Inp:
         self.special = list(special)
         self.units = units
         self.elementwise = elementwise
+        # weight of the special values when the C20 program generator draws this input (None: the default 0.15); the
+        # values are the same ones every check samples, only met more often where a rare one matters (S14)
+        self.c20_special_p = c20_special_p
 
-    def draw(self, nprng, rng):
+    def draw(self, nprng, rng, special_p=None):
         """One admissible value. ``rng`` (random.Random) picks the branch, ``nprng`` the numbers."""
         r = rng.random()
-        if self.special and r < 0.15:
+        p = 0.15 if special_p is None else special_p
+        if self.special and r < p:
             return np.full(self.nom.shape, float(rng.choice(self.special)))
-        if r < 0.30:
+        if r < p + 0.15:
             return self.nom.copy()
         shape = self.nom.shape if self.elementwise else (1,)
         u = nprng.uniform(self.lo, self.hi, size=shape)
@@ -751,7 +755,7 @@ def z6(spec):
     ] + ([Inp("load_factor", 1.0, "uni", 0.5, 2.5, special=[1.0, 0.0])] if s["struct_weight_relief"] else []) + [
         # the very thin values are admissible (an optimiser's infeasible iterates): stresses far beyond the
         # allowable, where the KS aggregate has to stay finite
-        Inp("wing.thickness_cp", np.array([0.05, 0.1, 0.15]), "rel", -0.3, 0.5, special=[0.004, 0.002, 0.5]),
+        Inp("wing.thickness_cp", np.array([0.05, 0.1, 0.15]), "rel", -0.3, 0.5, special=[0.004, 0.002, 0.5], c20_special_p=0.4),
         Inp("wing.geometry.t_over_c_cp", np.array([0.15]), "rel", -0.2, 0.2),
     ]
     if spec.get("radius_cp"):
